@@ -638,6 +638,14 @@ func editFiles(r *rand.Rand, files map[string]*fileInfo, opts editOpts) (*editRe
 			if doc != "" {
 				b.WriteString(doc + "\n")
 			}
+			// a user may declare the method on the value receiver (legal: the resolver structs only
+			// embed a pointer); chosen without consuming randomness
+			if (len(m.Name)+len(keys)+len(n))%5 == 0 && strings.Contains(m.SigPrefix, "(r *") {
+				cp := *m
+				cp.SigPrefix = strings.Replace(m.SigPrefix, "(r *", "(r ", 1)
+				m = &cp
+				g.use("value_receiver")
+			}
 			if len(must[k]) == 0 && g.chance(10) {
 				g.use("body_one_liner")
 				if g.chance(65) {
